@@ -255,6 +255,22 @@ impl World {
             r is Err && final(self).faults@ == old(self).faults@ ==> final(self).fs() == old(self).fs(),
     { unimplemented!() }
 
+    // ---- std::fs::copy: opens the source (follows), then creates/truncates the target and copies bytes and permission bits.
+    // (a target that is a symlink would be written through; excluded by the physical-path assumption for files libcnb writes)
+    #[verifier::external_body]
+    pub fn fs_copy<P: AsRef<Path>, Q: AsRef<Path>>(&mut self, from: P, to: Q) -> (r: Result<u64, IoError>)
+        requires old(self).fs().wf()
+        ensures final(self).proc@ == old(self).proc@, final(self).fs().wf(), final(self).faults@ >= old(self).faults@,
+            r is Ok ==> final(self).faults@ == old(self).faults@ && old(self).fs().is_file_f(from.path_view()) && to.path_view().len() > 0
+                && old(self).fs().is_dir(to.path_view().drop_last())
+                && !(old(self).fs().has(to.path_view()) && old(self).fs().node(to.path_view()) is Dir)
+                && final(self).fs().has(to.path_view())
+                && final(self).fs().node(to.path_view()) == Node::File(old(self).fs().content(old(self).fs().follow(from.path_view())->0))
+                && final(self).fs().same_except(old(self).fs(), to.path_view()),
+            r is Err ==> final(self).fs().same_except(old(self).fs(), to.path_view()),
+            r is Err && final(self).faults@ == old(self).faults@ ==> final(self).fs() == old(self).fs(),
+    { unimplemented!() }
+
     // ---- open(O_CREAT|O_TRUNC|O_WRONLY)+write_all: parent must be a directory, target must not be one.
     // (an existing symlink target would be written through; excluded by the physical-path assumption for files libcnb writes)
     #[verifier::external_body]
